@@ -51,7 +51,7 @@ Section TD.
   Definition has (k : K) (d : td K V) : bool :=
     match alist_get keqb k (td_items d) with Some _ => true | None => false end.
 
-  (* ghost: [last k] = time of the last successful access (assignment, or lookup of a present key) *)
+  (* ghost: [last k] = time of the last successful access (assignment, or lookup of a present key) since the last pop of [k] *)
   Definition upd (last : K -> option Z) (k : K) (t : Z) : K -> option Z :=
     fun k' => if keqb k' k then Some t else last k'.
 
@@ -155,6 +155,32 @@ Section TD.
     - destruct I as (E & _). unfold has in Hk. rewrite E in Hk. cbn in Hk. discriminate.
   Qed.
 
+  (* pop: the entry is forgotten, so is its ghost access time *)
+  Definition clr (last : K -> option Z) (k : K) : K -> option Z :=
+    fun k' => if keqb k' k then None else last k'.
+  Lemma alist_get_remove k k' (l : list (K * V)) :
+    alist_get keqb k' (alist_remove keqb k l) = if keqb k' k then None else alist_get keqb k' l.
+  Proof.
+    unfold alist_remove. rewrite (alist_get_filter (fun x => negb (keqb x k))). destruct (keqb k' k); reflexivity.
+  Qed.
+  Lemma has_pop_same k (d : td K V) : has k (td_pop keqb k d) = false.
+  Proof. unfold has, td_pop; cbn [td_items]. rewrite alist_get_remove, keqb_refl. reflexivity. Qed.
+  Lemma has_pop_other k k' (d : td K V) : k' <> k -> has k' (td_pop keqb k d) = has k' d.
+  Proof. intros N. unfold has, td_pop; cbn [td_items]. rewrite alist_get_remove, keqb_neq by exact N. reflexivity. Qed.
+  Lemma td_ginv_pop now last d k : td_ginv now last d -> td_ginv now (clr last k) (td_pop keqb k d).
+  Proof.
+    intros I. unfold td_ginv in *. change (td_timer (td_pop keqb k d)) with (td_timer d).
+    destruct (td_timer d) as [[due rec]|] eqn:Tm.
+    - destruct I as (B & H2 & H3). split; [exact B|]. split.
+      + intros k' Hk'. destruct (keqb_dec k' k) as [->|N]; [rewrite has_pop_same in Hk'; discriminate|].
+        rewrite has_pop_other in Hk' by exact N. unfold clr. rewrite keqb_neq by exact N. exact (H2 k' Hk').
+      + intros k' a. unfold clr. destruct (keqb_dec k' k) as [->|N]; [rewrite keqb_refl; discriminate|].
+        rewrite keqb_neq by exact N. intros L. rewrite has_pop_other by exact N. exact (H3 k' a L).
+    - destruct I as (E & H2). split.
+      + unfold td_pop; cbn [td_items]. rewrite E. reflexivity.
+      + intros k' a. unfold clr. destruct (keqb k' k); [discriminate|apply H2].
+  Qed.
+
   Definition settled (target : Z) (d : td K V) : Prop :=
     match td_timer d with Some (due, _) => target < due | None => True end.
   Lemma settled_none target (d : td K V) : td_timer d = None -> settled target d.
@@ -250,7 +276,7 @@ Section TD.
   Proof. unfold settled, td_fire. destruct (td_timer d) as [[due rec]|]; [|reflexivity]. intros H. replace (due <=? target) with false by lia. reflexivity. Qed.
 
   (* ---------------------------------------------------------------- histories of dict operations *)
-  Inductive tdop := TGet (k : K) | TSet (k : K) (v : V) | TAdv (dt : Z).
+  Inductive tdop := TGet (k : K) | TSet (k : K) (v : V) | TPop (k : K) | TAdv (dt : Z).
   Definition gstate := (Z * (K -> option Z) * td K V)%type.
   Definition td_apply (st : gstate) (o : tdop) : gstate :=
     let '(now, last, d) := st in
@@ -260,6 +286,7 @@ Section TD.
                 | None => (now, last, d)                         (* KeyError: not an access *)
                 end
     | TSet k v => (now, upd last k now, td_setitem keqb T now k v d)
+    | TPop k => (now, clr last k, td_pop keqb k d)
     | TAdv dt => (now + dt, last, td_advance keqb T (now + dt) d)
     end.
   Definition td_run (st : gstate) (ops : list tdop) : gstate := fold_left td_apply ops st.
@@ -270,11 +297,12 @@ Section TD.
   Proof.
     induction ops as [|o ops IH]; intros now last d F I; [exact I|].
     inversion F as [|? ? Fo Fr]; subst. cbn [td_run fold_left].
-    destruct o as [k|k v|dt]; cbn [td_apply].
+    destruct o as [k|k v|k|dt]; cbn [td_apply].
     - destruct (td_getitem keqb T now k d) as [[v d']|] eqn:G.
       + apply IH; [exact Fr|]. exact (td_ginv_getitem now last d k v d' I G).
       + apply IH; assumption.
     - apply IH; [exact Fr|]. apply td_ginv_setitem. exact I.
+    - apply IH; [exact Fr|]. apply td_ginv_pop. exact I.
     - apply IH; [exact Fr|]. cbn in Fo. apply (td_ginv_advance now); [exact I|lia].
   Qed.
 
